@@ -128,6 +128,20 @@ func genTemplateFamilies(cw *caseWriter, r *rng, n int) {
 	}
 }
 
+// useReturned: a row handed back TOGETHER with an error is the caller's to use like any other row (and belongs to
+// nobody else): it is written into.
+func useReturned(nr jsonline.Row) {
+	if nr == nil {
+		return
+	}
+	guard(func() {
+		nr.Set("a", 4242)
+		_ = nr.ImportAtKey("s", "written into a row that came back with an error")
+		nr.Set("zz_left_behind", true)
+		_ = nr.UnmarshalJSON([]byte(`{"b":"AQID","c_string":"left behind"}`))
+	})
+}
+
 func genC15(cw *caseWriter, seed uint64, tier string) {
 	r := newRng(seed)
 	genTemplateFamilies(cw, newRng(seed+77), 150)
@@ -243,6 +257,7 @@ func genC15(cw *caseWriter, seed uint64, tier string) {
 					nr, err := t.CreateRow(m)
 					if err != nil {
 						errc = errClass(err)
+						useReturned(nr)
 					} else {
 						rows = append(rows, nr)
 					}
@@ -254,9 +269,16 @@ func genC15(cw *caseWriter, seed uint64, tier string) {
 						sl = append(sl, v)
 					}
 					op = "cs " + dynStr(sl)
-					nr, err := t.CreateRow(sl)
+					var input interface{} = sl
+					if r.chance(1, 4) {
+						// an input of a kind CreateRow does not take (a struct, a number, a typed map): refused, no row
+						input = pick(r, []interface{}{struct{ X int }{1}, 42, map[string]int{"a": 1}, 1.5})
+						op = "cs " + dynStr(input)
+					}
+					nr, err := t.CreateRow(input)
 					if err != nil {
 						errc = errClass(err)
+						useReturned(nr)
 					} else {
 						rows = append(rows, nr)
 					}
@@ -266,6 +288,7 @@ func genC15(cw *caseWriter, seed uint64, tier string) {
 					op = "cj " + hxs(js)
 					nr, err := t.CreateRow(js)
 					if err != nil {
+						useReturned(nr)
 						errc = classifyLine(err)
 					} else {
 						rows = append(rows, nr)
